@@ -830,7 +830,7 @@ impl WriterSet {
             self.segment_size,
         )?;
 
-        let (closed_event_index, closed_partition_index, closed_stream_index) = {
+        {
             let mut indexes = self.indexes.blocking_write();
             for PendingIndex {
                 event_id,
@@ -867,29 +867,28 @@ impl WriterSet {
             let closed_partition_index = old_partition_index.close(&self.thread_pool)?;
             let closed_stream_index = old_stream_index.close(&self.thread_pool)?;
 
+            // Readers consult the live indexes first and the reader pool second. The two have to
+            // change as one step: keep the live indexes locked until the sealed segment (with its
+            // indexes) and the new segment are installed in the reader pool, otherwise everything
+            // stored in the sealed segment is invisible to reads that run in between.
+            #[cfg(feature = "verif")]
+            seglog::verif::point("writer:rollover:swapped", self.bucket_segment_id.bucket_id as u64, 3);
+            self.reader_pool.add_bucket_segment(
+                old_bucket_segment_id,
+                &old_reader,
+                Some(&closed_event_index),
+                Some(&closed_partition_index),
+                Some(&closed_stream_index),
+            );
+            #[cfg(feature = "verif")]
+            seglog::verif::point("writer:rollover:sealed_installed", self.bucket_segment_id.bucket_id as u64, 4);
+            self.reader_pool
+                .add_bucket_segment(self.bucket_segment_id, &self.reader, None, None, None);
+
             self.index_segment_id
                 .store(self.bucket_segment_id.segment_id, Ordering::Release);
+        }
 
-            (
-                closed_event_index,
-                closed_partition_index,
-                closed_stream_index,
-            )
-        };
-
-        #[cfg(feature = "verif")]
-        seglog::verif::point("writer:rollover:swapped", self.bucket_segment_id.bucket_id as u64, 3);
-        self.reader_pool.add_bucket_segment(
-            old_bucket_segment_id,
-            &old_reader,
-            Some(&closed_event_index),
-            Some(&closed_partition_index),
-            Some(&closed_stream_index),
-        );
-        #[cfg(feature = "verif")]
-        seglog::verif::point("writer:rollover:sealed_installed", self.bucket_segment_id.bucket_id as u64, 4);
-        self.reader_pool
-            .add_bucket_segment(self.bucket_segment_id, &self.reader, None, None, None);
         #[cfg(feature = "verif")]
         seglog::verif::point("writer:rollover:end", self.bucket_segment_id.bucket_id as u64, 5);
 
